@@ -14,51 +14,110 @@ TYPES = {
 TYPE_NAMES = {v: k for k, v in TYPES.items()}
 
 
-def enc(x):
+def _shared_ids(x, seen=None, shared=None):
+    """ids of list / dict objects reachable more than once (aliased sub-containers, as YAML anchors produce)."""
+    if seen is None:
+        seen, shared = set(), set()
+    if isinstance(x, (list, dict)):
+        if id(x) in seen:
+            shared.add(id(x))
+            return shared
+        seen.add(id(x))
+        for v in (x.values() if isinstance(x, dict) else x):
+            _shared_ids(v, seen, shared)
+        if isinstance(x, dict):
+            for k in x:
+                _shared_ids(k, seen, shared)
+    elif isinstance(x, tuple):
+        for v in x:
+            _shared_ids(v, seen, shared)
+    return shared
+
+
+def enc(x, _shared=None, _defs=None):
+    if _shared is None:
+        _shared = _shared_ids(x)
+        _defs = {}
     if x is None or isinstance(x, (bool, int, str)):
         return x
     if isinstance(x, float):
         return {"$f": repr(x)}
+    if isinstance(x, (list, dict)) and id(x) in _shared:
+        if id(x) in _defs:
+            return {"$ref": _defs[id(x)]}
+        _defs[id(x)] = len(_defs)
+        n = _defs[id(x)]
+        body = [enc(i, _shared, _defs) for i in x] if isinstance(x, list) else \
+            {"$d": [[enc(k, _shared, _defs), enc(v, _shared, _defs)] for k, v in x.items()]}
+        return {"$def": n, "v": body}
     if isinstance(x, list):
-        return [enc(i) for i in x]
+        return [enc(i, _shared, _defs) for i in x]
     if isinstance(x, tuple):
-        return {"$t": [enc(i) for i in x]}
+        return {"$t": [enc(i, _shared, _defs) for i in x]}
     if isinstance(x, dict):
-        return {"$d": [[enc(k), enc(v)] for k, v in x.items()]}
+        return {"$d": [[enc(k, _shared, _defs), enc(v, _shared, _defs)] for k, v in x.items()]}
     if isinstance(x, type):
         return {"$type": TYPE_NAMES.get(x, x.__name__)}
     if isinstance(x, (set, frozenset)):
-        return {"$s": sorted((enc(i) for i in x), key=repr)}
+        return {"$s": sorted((enc(i, _shared, _defs) for i in x), key=repr)}
     return {"$repr": repr(x)}
 
 
-def dec(x):
+def dec(x, _defs=None):
+    if _defs is None:
+        _defs = {}
     if isinstance(x, list):
-        return [dec(i) for i in x]
+        return [dec(i, _defs) for i in x]
     if isinstance(x, dict):
         if "$f" in x:
             return float(x["$f"])
+        if "$ref" in x:
+            return _defs[x["$ref"]]
+        if "$def" in x:
+            body = x["v"]
+            if isinstance(body, list):
+                out = []
+                _defs[x["$def"]] = out
+                out.extend(dec(i, _defs) for i in body)
+            else:
+                out = {}
+                _defs[x["$def"]] = out
+                for k, v in body["$d"]:
+                    out[dec(k, _defs)] = dec(v, _defs)
+            return out
         if "$t" in x:
-            return tuple(dec(i) for i in x["$t"])
+            return tuple(dec(i, _defs) for i in x["$t"])
         if "$d" in x:
-            return {dec(k): dec(v) for k, v in x["$d"]}
+            return {dec(k, _defs): dec(v, _defs) for k, v in x["$d"]}
         if "$type" in x:
             return TYPES[x["$type"]]
         if "$s" in x:
-            return set(dec(i) for i in x["$s"])
+            return set(dec(i, _defs) for i in x["$s"])
         if "$repr" in x:
             return x["$repr"]
         raise ValueError(f"cannot decode {x!r}")
     return x
 
 
-def fresh(x):
-    """Type-exact deep copy of a JSON-like value (documents are rebuilt per call so that no
-    input is ever aliased between two executions)."""
-    if isinstance(x, list):
-        return [fresh(i) for i in x]
+def fresh(x, _memo=None):
+    """Type-exact deep copy of a JSON-like value (documents are rebuilt per call so that no input is ever
+    aliased between two executions).  Sharing *inside* the value (the same list / dict object at two
+    positions, as a YAML anchor / alias produces) is preserved."""
+    if _memo is None:
+        _memo = {}
+    if isinstance(x, (list, dict)):
+        if id(x) in _memo:
+            return _memo[id(x)]
+        if isinstance(x, list):
+            out = []
+            _memo[id(x)] = out
+            out.extend(fresh(i, _memo) for i in x)
+        else:
+            out = {}
+            _memo[id(x)] = out
+            for k, v in x.items():
+                out[k] = fresh(v, _memo)
+        return out
     if isinstance(x, tuple):
-        return tuple(fresh(i) for i in x)
-    if isinstance(x, dict):
-        return {k: fresh(v) for k, v in x.items()}
+        return tuple(fresh(i, _memo) for i in x)
     return x
